@@ -344,40 +344,49 @@ impl<F: Write + Seek> Directory<F> {
         }
         debug_assert_eq!(self.dir_entry(stream_id).child, consts::NO_STREAM);
 
-        // Restructure the tree.
-        let mut replacement_id = consts::NO_STREAM;
-        loop {
-            let left_sibling = self.dir_entry(stream_id).left_sibling;
-            let right_sibling = self.dir_entry(stream_id).right_sibling;
-            if left_sibling == consts::NO_STREAM
-                && right_sibling == consts::NO_STREAM
-            {
-                break;
-            } else if left_sibling == consts::NO_STREAM {
-                replacement_id = right_sibling;
-                break;
-            } else if right_sibling == consts::NO_STREAM {
-                replacement_id = left_sibling;
-                break;
-            }
+        // Restructure the tree.  Every surviving entry keeps its slot (open
+        // streams refer to their entry by slot), so an entry with two children
+        // is replaced by re-linking its in-order predecessor, not by copying
+        // it.  The root of a subtree that moves up is painted black, so that
+        // no red node can end up below a red parent.
+        let left_sibling = self.dir_entry(stream_id).left_sibling;
+        let right_sibling = self.dir_entry(stream_id).right_sibling;
+        let replacement_id = if left_sibling == consts::NO_STREAM {
+            self.paint_black(right_sibling)?;
+            right_sibling
+        } else if right_sibling == consts::NO_STREAM {
+            self.paint_black(left_sibling)?;
+            left_sibling
+        } else {
+            // The predecessor is the rightmost entry of the left subtree.
+            let mut pred_parent_id = stream_id;
             let mut predecessor_id = left_sibling;
             loop {
-                stream_ids.push(predecessor_id);
                 let next_id = self.dir_entry(predecessor_id).right_sibling;
                 if next_id == consts::NO_STREAM {
                     break;
                 }
+                pred_parent_id = predecessor_id;
                 predecessor_id = next_id;
             }
-            let mut pred_entry = self.dir_entry(predecessor_id).clone();
-            debug_assert_eq!(pred_entry.right_sibling, consts::NO_STREAM);
-            pred_entry.left_sibling = left_sibling;
+            // Unlink it; its left subtree takes its place.
+            let pred_left = self.dir_entry(predecessor_id).left_sibling;
+            self.paint_black(pred_left)?;
+            if pred_parent_id != stream_id {
+                self.dir_entry_mut(pred_parent_id).right_sibling = pred_left;
+                let mut sector =
+                    self.seek_within_dir_entry(pred_parent_id, 72)?;
+                sector.write_le_u32(pred_left)?;
+                self.dir_entry_mut(predecessor_id).left_sibling = left_sibling;
+            }
+            // Put it where the removed entry was.
+            let color = self.dir_entry(stream_id).color;
+            let pred_entry = self.dir_entry_mut(predecessor_id);
             pred_entry.right_sibling = right_sibling;
-            pred_entry.write_to(&mut self.seek_to_dir_entry(stream_id)?)?;
-            *self.dir_entry_mut(stream_id) = pred_entry;
-            stream_id = predecessor_id;
-        }
-        // TODO: recolor nodes
+            pred_entry.color = color;
+            self.write_dir_entry(predecessor_id)?;
+            predecessor_id
+        };
 
         // Remove the entry.
         debug_assert_eq!(stream_ids.last(), Some(&stream_id));
@@ -402,6 +411,17 @@ impl<F: Write + Seek> Directory<F> {
             sector.write_le_u32(replacement_id)?;
         }
         self.free_dir_entry(stream_id)?;
+        Ok(())
+    }
+
+    /// Colors the given entry black (does nothing for `NO_STREAM`).
+    fn paint_black(&mut self, stream_id: u32) -> io::Result<()> {
+        if stream_id != consts::NO_STREAM
+            && self.dir_entry(stream_id).color != Color::Black
+        {
+            self.dir_entry_mut(stream_id).color = Color::Black;
+            self.write_dir_entry(stream_id)?;
+        }
         Ok(())
     }
 
